@@ -24,7 +24,7 @@ func reclaimHistories(ctx context.Context, r *vkit.Run, base *vkit.Rand) {
 	nh, steps := 3, 40
 	if r.Thorough() {
 		stacks = []string{"fs", "sql", "named", "ec21", "zstd>fs", "outbox>fs", "cache>fs"}
-		nh, steps = 10, 120
+		nh, steps = 5, 100
 	}
 	for i, spec := range []string{"fs", "sql"} {
 		idleGraceScenario(ctx, r, i, spec)
